@@ -178,6 +178,21 @@ func (c *Ctx) record(cs any, v *Verdict) string {
 	return c.lastFail.Msg
 }
 
+// absorbKnown: if the failure recorded in v matches an open known finding it is counted,
+// cleared, and true is returned so that the oracle can go on looking at the remaining
+// executions of the case.
+func (c *Ctx) absorbKnown(v *Verdict) bool {
+	if v.Fail == "" {
+		return false
+	}
+	if e := c.KF.Match(c.ID, v.Features, v.Kind, v.Site); e != nil {
+		c.Rep.KnownHit(e.ID)
+		v.Fail, v.Kind, v.Site = "", "", ""
+		return true
+	}
+	return false
+}
+
 // runProperty drives gen+check under rapid.
 func runProperty[C any](t *testing.T, id string, gen func(*rapid.T, *Ctx) C, check func(*Ctx, C) *Verdict) {
 	c := setup(t, id)
